@@ -1,5 +1,6 @@
 #!/usr/bin/env python3
-"""Regenerate tables/c09_census.json: the kernel obligations the analysis cannot decide today (review the diff!)."""
+"""Regenerate tables/c09_decided.json: the kernel functions (closures folded in) whose panic obligations are all
+discharged today.  Review the diff: a function may only leave the list for a stated reason."""
 import json, os, sys
 sys.path.insert(0, os.path.dirname(os.path.dirname(os.path.abspath(__file__))))
 from agvlib import facts
@@ -7,12 +8,11 @@ from agvlib.rules import c09
 prog = facts.load()
 sa, _ = c09.physics_scope(prog, c09.ASSEMBLY)
 sk, _ = c09.physics_scope(prog, c09.KERNELS, exclude=set(sa.bodies))
-got, tot = c09.kernel_census(prog, sk)
-out = {}
-for p, g in sorted(got.items()):
-    out[p] = {k: v for k, v in sorted(g.items()) if k != "_where" and not k.endswith("/float")}
-    if not out[p]:
-        del out[p]
-json.dump({"note": "undecided integer/index/loop obligations per kernel function (count per kind); float-pipeline sites are not listed",
-           "functions": out}, open(c09.CENSUS, "w"), indent=1, sort_keys=True)
-print(dict(tot), sum(sum(v.values()) for v in out.values()), "integer sites in", len(out), "functions")
+got = c09.kernel_census(prog, sk)
+dec = {f: g["obligations"] for f, g in sorted(got.items()) if g["obligations"] and not g["open"]}
+json.dump({"note": "kernel functions with at least one panic obligation, all discharged (value = number of obligations when listed)",
+           "functions": dec}, open(c09.DECIDED, "w"), indent=1, sort_keys=True)
+print(len(dec), "decided of", len(got), "top-level kernel functions")
+for f, g in sorted(got.items()):
+    if g["open"]:
+        print("  undecided", f, g["open"])
